@@ -27,6 +27,10 @@ SHAPES = {
     "zd": dict(ps=[], asy=False, from_deps=True),
     # .. with a second elided lifetime nested inside the first
     "ze": dict(ps=[], asy=False, from_deps=True, nested=True),
+    # .. with the lifetime of the dependency reference NAMED in the impl block's fn and the return type's elided
+    "zn": dict(ps=[], asy=False, from_deps=True, named_deps=True),
+    # an async method without return value (the delegating call must still be awaited)
+    "yu": dict(ps=[("a", "i64", "11")], asy=True, unit=True),
     "y0": dict(ps=[], asy=True), "y1": dict(ps=[("a", "i64", "11")], asy=True), "y2": dict(ps=[("a", "i64", "11"), ("b", "i64", "12")], asy=True),
     "ys": dict(ps=[("s", "&str", '"s11"')], asy=True),
 }
@@ -34,8 +38,11 @@ ORDER = list(SHAPES)
 BOUNDS = {"b0": [[], []], "b1": [["Dep1"], ["Dep1"]], "b2": [["Dep1", "Dep2"], ["Dep1", "Dep2"]],
           "b12": [["Dep1"], ["Dep1", "Dep2"]], "b21": [["Dep2", "Dep1"], ["Dep1"]], "b1x2": [["Dep1"], ["Dep2"]],
           # two instantiations of ONE generic dependency trait (a bound is its whole path, generic arguments included)
-          "bg": [["Dep3<u8>"], ["Dep3<u16>"]], "bgg": [["Dep3<u8>", "Dep3<u16>"], ["Dep3<u8>"]]}
-DEPCALL = {"Dep1": ("deps.dep1()", "5"), "Dep2": ("deps.dep2()", "6"), "Dep3<u8>": ("Dep3::<u8>::dep3(deps)", "8"), "Dep3<u16>": ("Dep3::<u16>::dep3(deps)", "16")}
+          "bg": [["Dep3<u8>"], ["Dep3<u16>"]], "bgg": [["Dep3<u8>", "Dep3<u16>"], ["Dep3<u8>"]],
+          # two DIFFERENT dependency traits whose paths end in the same segment
+          "bmm": [["ma::Dep", "mb::Dep"], ["ma::Dep"]]}
+DEPCALL = {"Dep1": ("deps.dep1()", "5"), "Dep2": ("deps.dep2()", "6"), "Dep3<u8>": ("Dep3::<u8>::dep3(deps)", "8"), "Dep3<u16>": ("Dep3::<u16>::dep3(deps)", "16"),
+           "ma::Dep": ("ma::Dep::depm(deps)", "21"), "mb::Dep": ("mb::Dep::depm(deps)", "22")}
 
 
 def enumerate_states(tier):
@@ -75,6 +82,8 @@ def trait_method(x, i):
     if d.get("provided"):
         return "fn m%d(&self, a: i64) -> String where Self: Sized { ::std::format!(\"default{}\", a) }" % i
     ps = "".join(", %s: %s" % (p[0], p[1]) for p in d["ps"])
+    if d.get("unit"):
+        return "async fn m%d(&self%s);" % (i, ps)
     return "%sfn m%d(%s%s) -> String;" % ("async " if d["asy"] else "", i, "self: &Self" if d.get("typed_recv") else "&self", ps)
 
 
@@ -91,11 +100,15 @@ def impl_fn(s, x, i, target):
         return "pub fn m%d<'x>(deps: %s, %s) -> &'x str { %s %s s }" % (i, dep_ty_b, ps, ev, " ".join("let _ = %s;" % v for v in depvals))
     if d.get("nested"):
         return "pub fn m%d(deps: %s) -> &[&str] { %s %s ::std::vec::Vec::leak(::std::vec![rt::tn(deps)]) }" % (i, dep_ty, ev, " ".join("let _ = %s;" % v for v in depvals))
+    if d.get("named_deps"):
+        return "pub fn m%d<'n>(deps: %s) -> &str { %s %s rt::tn(deps) }" % (i, dep_ty.replace("&", "&'n ", 1), ev, " ".join("let _ = %s;" % v for v in depvals))
     if d.get("from_deps"):
         return "pub fn m%d(deps: %s) -> &str { %s %s rt::tn(deps) }" % (i, dep_ty, ev, " ".join("let _ = %s;" % v for v in depvals))
     ps = "".join(", %s: %s" % (p[0], p[1]) for p in d["ps"])
     res = gen.fmt_call("%s.m%d" % (target, i), shows + depvals)
     pre = "rt::yield_once().await; " if d["asy"] else ""
+    if d.get("unit"):
+        return "pub async fn m%d(deps: %s%s) { %s%s %s }" % (i, dep_ty, ps, pre, ev, " ".join("let _ = %s;" % v for v in depvals))
     return "pub %sfn m%d(deps: %s%s) -> String { %s%s %s }" % ("async " if d["asy"] else "", i, dep_ty, ps, pre, ev, res)
 
 
@@ -111,7 +124,10 @@ def render(s):
          "    impl Dep3<u8> for ::entrait::Impl<AppA> { fn dep3(&self) -> i64 { 8 } } impl Dep3<u8> for ::entrait::Impl<AppB> { fn dep3(&self) -> i64 { 8 } }",
          "    impl Dep3<u16> for ::entrait::Impl<AppA> { fn dep3(&self) -> i64 { 16 } } impl Dep3<u16> for ::entrait::Impl<AppB> { fn dep3(&self) -> i64 { 16 } }",
          "    impl Dep1 for ::entrait::Impl<AppA> { fn dep1(&self) -> i64 { 5 } } impl Dep1 for ::entrait::Impl<AppB> { fn dep1(&self) -> i64 { 5 } }",
-         "    impl Dep2 for ::entrait::Impl<AppA> { fn dep2(&self) -> i64 { 6 } } impl Dep2 for ::entrait::Impl<AppB> { fn dep2(&self) -> i64 { 6 } }"]
+         "    impl Dep2 for ::entrait::Impl<AppA> { fn dep2(&self) -> i64 { 6 } } impl Dep2 for ::entrait::Impl<AppB> { fn dep2(&self) -> i64 { 6 } }",
+         "    pub mod ma { pub trait Dep { fn depm(&self) -> i64; } } pub mod mb { pub trait Dep { fn depm(&self) -> i64; } }",
+         "    impl ma::Dep for ::entrait::Impl<AppA> { fn depm(&self) -> i64 { 21 } } impl ma::Dep for ::entrait::Impl<AppB> { fn depm(&self) -> i64 { 21 } }",
+         "    impl mb::Dep for ::entrait::Impl<AppA> { fn depm(&self) -> i64 { 22 } } impl mb::Dep for ::entrait::Impl<AppB> { fn depm(&self) -> i64 { 22 } }"]
     stamped = any(SHAPES[x].get("stamped") for x in w)
     if stamped:
         L.append("    macro_rules! stamp { ($p:ident) => {")
@@ -159,7 +175,7 @@ def render(s):
             call = "Tr::m%d(&app%s)" % (i, "".join(", " + p[2] for p in d["ps"]))
             if d["asy"]:
                 call = "rt::block_on(%s)" % call
-            L.append('          { let r = %s; rt::out("%s_m%d", format!("{}##{}", rt::take(), %s)); }' % (call, app, i, "r[0]" if d.get("nested") else "r"))
+            L.append('          { let r = %s; rt::out("%s_m%d", format!("{}##{}", rt::take(), %s)); }' % (call, app, i, "r[0]" if d.get("nested") else '{ let _: () = r; "unit" }' if d.get("unit") else "r"))
         L.append("        }")
     L += ["    }", "}"]
     return engine.Unit(key, "\n".join(L), 'rt::run("%s", %s::client);' % (key, key), s)
@@ -172,7 +188,7 @@ def model(s):
             d = SHAPES[x]
             shown = [{"11": "11", "12": "12", '"s11"': "s11"}[p[2]] for p in d["ps"]]
             deps = [DEPCALL[b][1] for b in bounds_of(s, i)]
-            res = "s11" if d.get("borrowed") else "<typename>" if d.get("from_deps") else "|".join(["%s.m%d" % (t, i)] + shown + deps)
+            res = "s11" if d.get("borrowed") else "<typename>" if d.get("from_deps") else "unit" if d.get("unit") else "|".join(["%s.m%d" % (t, i)] + shown + deps)
             exp["%s_m%d" % (app, i)] = dict(target=t, method=i, args=shown, result=res, app=app)
     return exp
 
